@@ -309,7 +309,9 @@ impl Prop for C19 {
                     Via::TagsJson => {
                         let needed = tsize;
                         let bl = buflen(needed, *delta);
-                        let text = render_tags(&parts, &Plan::default().cur());
+                        // odd buffer deltas: every BMP character spelled \uXXXX (what ASCII-only encoders emit)
+                        let plan = if delta.rem_euclid(2) == 1 { Plan { spell: Choices::new(vec![6]), ..Plan::default() } } else { Plan::default() };
+                        let text = render_tags(&parts, &plan.cur());
                         (needed, guard("Tags::from_json", || {
                             with_buf(bl, |buf| match Tags::from_json(text.as_bytes(), buf) {
                                 Ok((n, t)) => {
@@ -326,7 +328,8 @@ impl Prop for C19 {
                         let mut ev = crate::props::c01::fixed_event();
                         ev.tags = parts.clone();
                         ev.content = content.clone();
-                        let text = render_event(&ev, &Plan::default());
+                        let plan = if delta.rem_euclid(2) == 1 { Plan { spell: Choices::new(vec![6]), ..Plan::default() } } else { Plan::default() };
+                        let text = render_event(&ev, &plan);
                         (needed, guard("Event::from_json", || {
                             with_buf(bl, |buf| match Event::from_json(text.as_bytes(), buf) {
                                 Ok((_, e)) => match e.tags() {
